@@ -15,6 +15,7 @@ the in-place patch of a late-bound `Resolve` opcode are not rewound.
 -/
 import XehModel.Proofs.VMRev2
 import XehModel.Proofs.VMSim2
+import XehModel.Proofs.SessionUnwind
 
 namespace Xeh.C02
 open Xeh Xeh.Mach
@@ -236,6 +237,40 @@ theorem rewind_replay (j : Nat) (mid back x : Mach) (w : WF mid)
     subst_vars
     rfl
   exact (key x y hn).symm
+
+/-! ### where reverse stepping starts: a compiled source leaves nothing of its build in the log -/
+
+open Xeh.Session Xeh.Session.Sess in
+/-- **the start of the program is the start of the log's new part.**  Compile a source with recording on — with meta
+    blocks that execute while it is read, `const`, results re-emitted as literals: when `compile` returns, the reverse
+    log is exactly what it was before (`forget_build_log`, repair fa36941 of /repo).  So the k-th backward step of the
+    program undoes the program's k-th last instruction and nothing else, "for every k up to the start": there is no
+    build-time entry in front of the first instruction for the last backward step to run into. -/
+theorem compile_leaves_the_log_alone (fuel : Nat) (toks : List Compile.Tok) (s s' : Sess) (idle : Idle s)
+    (h : s.buildSource fuel .compile toks = .done s') : s'.m.log = s.m.log := by
+  have hb := sok_build1 (ext_open idle .compile (by decide)) (by decide) fuel toks
+  unfold Sess.buildSource at h
+  simp only [] at h
+  generalize hg : (s.contextOpen .compile).build1 fuel toks = r at h hb
+  cases r with
+  | ok s2 =>
+    simp only at h
+    have e0 : Ext0 s s2 := hb.ext0
+    obtain ⟨hmode, hnest⟩ := build1_ok_base fuel toks (by decide) hg hb
+    have hmode' : (forgetBuildLog s.m s2.m).ctx.mode = .compile := hmode
+    simp only [Sess.contextClose, hnest, hmode'] at h
+    cases h
+    show (forgetBuildLog s.m s2.m).log = s.m.log
+    unfold forgetBuildLog
+    cases hl : s.m.log with
+    | none => simp [e0.nolog hl]
+    | some ℓ =>
+      obtain ⟨seg, hseg⟩ := e0.log ℓ hl
+      simp [hseg]
+  | err e2 s2 => cases h
+  | panic p s2 => cases h
+  | unsupported u => cases h
+  | timeout => cases h
 
 /-! ### non-vacuity: a concrete recording machine in the middle of a counted loop with a local -/
 
